@@ -20,7 +20,10 @@
 EXTENDS Naturals, Integers, Sequences, FiniteSets, TLC, WeakMem
 
 CONSTANTS Stale,   \* BOOLEAN: loads may read non-latest messages
-          Configs  \* set of configurations [mode, count, spur, fx0, prog]
+          Configs  \* set of configurations [mode, count, spur, spw, fx0, prog]
+                   \* (spw: how many spurious / EINTR returns of futex_wait are explored per operation;
+                   \*  slack: 0 when the clock is exact (model checking), 1 when `now` is the microsecond FLOOR of a
+                   \*  nanosecond clock (recorded traces: a spurious return lands at an arbitrary nanosecond))
                    \* (spur: compare_exchange_weak may fail spuriously;  fx0: initial futex word -- regression family for
                    \*  the repaired defect c8a8a14: a waiter COUNTER next to the READY bit carried into it; waiters now
                    \*  set a flag with fetch_or, so a word just below READY stays below READY)
@@ -53,7 +56,7 @@ LocName(x) == x[1]
 LocIdx(x) == x[2]
 
 L0 == [opi |-> 1, seen |-> 0, head |-> 0, cur |-> 0, until |-> 0, rem |-> 0, dl |-> 0, res |-> 0,
-       timed |-> FALSE, wk |-> "", cbid |-> 0, inl |-> FALSE, after |-> FALSE, t0 |-> 0, setter |-> FALSE, sp |-> FALSE]
+       timed |-> FALSE, wk |-> "", cbid |-> 0, inl |-> FALSE, after |-> FALSE, t0 |-> 0, setter |-> FALSE, sp |-> FALSE, nsp |-> 0]
 
 \* a latch constructed with count 0 is published by its constructor
 PreSet(c) == c.mode = "latch" /\ c.count = 0
@@ -136,7 +139,7 @@ Call(t) ==
   /\ LET o == Op(t)
      IN /\ Goto(t, FirstPc(o))
         /\ SetL(t, [L[t] EXCEPT !.after = H.svDone /\ ~Stale, !.t0 = now, !.res = 0, !.timed = (o.op = "wf"),
-                                !.wk = IF o.op = "wf" THEN "wf" ELSE "get", !.inl = FALSE, !.setter = FALSE, !.sp = FALSE])
+                                !.wk = IF o.op = "wf" THEN "wf" ELSE "get", !.inl = FALSE, !.setter = FALSE, !.sp = FALSE, !.nsp = 0])
         /\ H' = [H EXCEPT !.svCalled = @ \/ o.op = "sv",
                           !.cbs = IF o.op \in {"of", "th"} THEN @ \cup {NodeId(t)} ELSE @]
         /\ ev' = [NoEv EXCEPT !.t = t, !.k = "call", !.op = o.op, !.n = o.n, !.id = NodeId(t)]
@@ -310,6 +313,19 @@ WFutexRet(t) ==
   /\ Goto(t, "w_reload")
   /\ UNCHANGED <<cfg, ms, L, H, nx, now>>
 
+\* futex_wait may return without a wake (spuriously with 0, or -1/EINTR on a signal), for a timed wait some time n - now
+\* into the wait: a legal action of the environment -- the code must re-check the word and, in wait_for, re-compute
+\* the remaining time from the clock
+Spur(t, n) ==
+  /\ pc[t] = "w_blocked"
+  /\ L[t].nsp < cfg.spw
+  /\ n >= now /\ (n > now => L[t].timed /\ n < L[t].dl + cfg.slack)
+  /\ now' = n
+  /\ ev' = [NoEv EXCEPT !.t = t, !.k = "spur", !.v = n]
+  /\ SetL(t, [L[t] EXCEPT !.nsp = @ + 1])
+  /\ Goto(t, "w_woken")
+  /\ UNCHANGED <<cfg, ms, H, nx>>
+
 WTimeout(t) ==
   /\ pc[t] = "w_timedout"
   /\ ev' = [NoEv EXCEPT !.t = t, !.k = "fret", !.loc = "futex", !.ok = FALSE]
@@ -324,13 +340,16 @@ WReload(t, M(_)) ==
   /\ UNCHANGED <<cfg, H, nx, now>>
 
 \* wait_for_slow re-reads the clock after every wait: give up when the time is over (even if READY)
+\* (rem = 0 on a floored clock: the sub-microsecond parts decide, both outcomes are possible)
 WClk1(t) ==
   /\ pc[t] = "w_clk1"
   /\ ev' = [NoEv EXCEPT !.t = t, !.k = "clock", !.v = now]
   /\ LET rem == L[t].until - now
-     IN IF rem <= 0 THEN SetL(t, [L[t] EXCEPT !.rem = rem, !.res = 0]) /\ Goto(t, "ret")
-        ELSE IF IsReady(L[t].seen) THEN SetL(t, [L[t] EXCEPT !.rem = rem, !.res = 1]) /\ Goto(t, "ret")
-        ELSE SetL(t, [L[t] EXCEPT !.rem = rem]) /\ Goto(t, "w_fwait")
+     IN \/ /\ rem <= 0
+           /\ SetL(t, [L[t] EXCEPT !.rem = rem, !.res = 0]) /\ Goto(t, "ret")
+        \/ /\ (rem > 0 \/ (rem = 0 /\ cfg.slack > 0))
+           /\ IF IsReady(L[t].seen) THEN SetL(t, [L[t] EXCEPT !.rem = rem, !.res = 1]) /\ Goto(t, "ret")
+              ELSE SetL(t, [L[t] EXCEPT !.rem = rem]) /\ Goto(t, "w_fwait")
   /\ UNCHANGED <<cfg, ms, H, nx, now>>
 
 \* the client reads the value get() returned a reference to
@@ -347,7 +366,7 @@ GRead(t) ==
 Fire(t, n) ==
   /\ \/ pc[t] = "w_blocked" /\ L[t].timed
      \/ pc[t] = "sl_blocked"
-  /\ n >= L[t].dl /\ n >= now
+  /\ n + cfg.slack >= L[t].dl /\ n >= now
   /\ now' = n
   /\ ev' = [NoEv EXCEPT !.t = t, !.k = "tick", !.v = n]
   /\ Goto(t, IF pc[t] = "w_blocked" THEN "w_timedout" ELSE "ret")
@@ -383,6 +402,7 @@ Step(t, M(_)) ==
   \/ SvCons(t) \/ SvWake(t) \/ WfClk0(t) \/ WFutexWait(t) \/ WFutexRet(t) \/ WTimeout(t) \/ WClk1(t) \/ GRead(t) \/ SlSleep(t)
 
 FireMC(t) == Fire(t, IF L[t].dl > now THEN L[t].dl ELSE now)
+SpurMC(t) == Spur(t, now) \/ (L[t].dl > now + 1 /\ Spur(t, L[t].dl - 1))
 
 Finished(t) == pc[t] = "idle" /\ L[t].opi > Len(cfg.prog[t])
 AllDone == \A t \in Thr : Finished(t)
